@@ -140,3 +140,8 @@ def run(ctx):
             ctx.ob(ok, 'threaded: the deadline now + wait is computed once, outside the wait loop (%s)' % [x for b, x in dl], 'wait-once|threaded', loc=v.loc())
     if ctx.config == 'all':
         ctx.floor(nd, 2, 'pending-reconnect driver loops')
+    # ---- added after the mutation sweep: the configured values this property starts from reach the options (builder setters)
+    from . import shared as _sh
+    _ns = _sh.builder_setters(ctx, lambda b, m: b == 'MqttClientOptionsBuilder' and m in ('with_base_reconnect_period', 'with_max_reconnect_period', 'with_reconnect_period_jitter', 'with_reconnect_stability_reset_period'), 'R-C19-1', 'base, maximum, jitter and stability period are the configured ones')
+    if ctx.config == 'all':
+        ctx.floor(_ns, 4, 'builder setters this property depends on')
